@@ -102,4 +102,4 @@ def run(ctx):
             s.setdefault(rng.randint(1, 45), []).append(rng.choice([1, 2, 3]))
         return s
     interp_check.run_family(ctx, {'ctl', 'trap', 'err'}, ctx.pick(150, 4000), size=10, schedules=rs,
-                            focus={'trap': 25, 'for': 10, 'simple': 25, 'err': 5, 'gosub': 8})
+                            focus={'trap': 25, 'for': 10, 'simple': 25, 'err': 5, 'gosub': 8}, direct=0.6)
